@@ -346,7 +346,7 @@ def jobs(tier):
     base, ackm = (True, False, 0, False), (True, False, 2, False)
     plan = [(("send",), 1, 15, [base, (True, False, 0, True), (True, True, 0, False), ackm, (True, False, 1, True)]),
             (("send",), 3, 4, [base, ackm]), (("send", "send"), 1, 3, [base, ackm]), (("send", "resend"), 1, 3, [base, ackm]),
-            (("sendlist",), 1, 3, [base]), (("resend",), 0, 3, [base]), (("send", "resend", "send"), 0, 2, [base]),
+            (("sendlist",), 1, 3, [base, ackm, (True, False, 1, True)]), (("sendlist",), 0, 2, [(True, False, 2, "mix")]), (("resend",), 0, 3, [base]), (("send", "resend", "send"), 0, 2, [base]),
             (("send", "send"), 0, 2, [(True, False, 2, "mix")])]
     if tier == "thorough":
         plan += [(("send",), 3, 15, [base, ackm]), (("send", "send"), 3, 7, [base, ackm]), (("send", "resend"), 3, 7, [base, ackm]),
@@ -355,7 +355,7 @@ def jobs(tier):
         for aa0, ask, ackpl, so in modes:
             out.append(Job("L3-send-resend-history", c02.h_history,
                            dict(hist=list(hist), fr_max=fr, arc_max=arc, aa0=aa0, ask=ask, ackpl=ackpl, send_only=so,
-                                ard=(250, 1500, 4000)[i % 3], driver="lite"), cost=(fr + 1) * arc * len(hist) ** 2))
+                                ard=(250, 1500, 4000)[i % 3], driver="lite", **({"ackpl_opt": True} if so == "mix" else {})), cost=(fr + 1) * arc * len(hist) ** 2))
     # L4
     seqs = [(c,) for c in LITE_CALLS]
     pairs = [(a, b) for a in LITE_CALLS for b in LITE_CALLS]
